@@ -17,6 +17,7 @@ def sat_full_query(pid, n, pat, pref, permc, cfg, dyn, timeout=900, fills=None):
     q.defs['VH_SAT_MEMORY_ONLY'] = None
     if fills:
         q.defs['VH_ABORT_OK'] = None   # too-small estimates: the diagnostic abort is the documented outcome
+        q.witness = False              # ... and ends every path, so the end-of-harness witness does not apply
     q.group = 'whole driver, bit-precise memory checks n=%d' % n
     # dmyblas2.c steps a column pointer one leading dimension past the last column (`M0 + ldm`): a one-past-the-block
     # pointer that is never dereferenced; --pointer-overflow-check flags it, no run can observe it (reported separately in DESIGN)
